@@ -35,6 +35,15 @@ def mc_intlane(ctx, invs):
         ctx.mc('MC_IntLane', mc_cfg(['L = 2', 'Dom <- Lat16q'], ['TypeOK'] + invs, 'InDom', 'View'), 'il16', workers=8)
 
 
+def mc_avel(ctx):
+    """the composed abstract machine (spec/Avel.tla): frame conditions, environment, masks as booleans"""
+    depth = 5 if ctx.tier == 'thorough' else 4
+    ctx.mc('Avel', mc_cfg(['N = 2', 'LaneDom = {0, 1, 255}', 'VRegs = {"v0", "v1"}', 'KRegs = {"k0", "k1"}', 'MemSize = 2',
+                           'MaxDepth = %d' % depth],
+                          ['TypeOK', 'Frame', 'EnvOnlyBySetEnv', 'MaskIsBooleans'], constraint='Bounded', view='View'),
+           'avel', workers=8)
+
+
 def _with_mc(ctx, mcfn, conf):
     """Run the specification self-check concurrently with the conformance run."""
     with ThreadPoolExecutor(max_workers=2) as ex:
@@ -53,7 +62,7 @@ LANE_ASSUME = [
 
 def c01(ctx):
     ctx.assumptions += LANE_ASSUME
-    _with_mc(ctx, lambda: mc_intlane(ctx, ['C01']),
+    _with_mc(ctx, lambda: (mc_intlane(ctx, ['C01']), mc_avel(ctx)),
              lambda: runner.lane_facts(ctx, 'drv_int.cpp', 'arith', INT_GROUPS))
 
 
@@ -62,7 +71,7 @@ def c02(ctx):
     def conf():
         runner.lane_facts(ctx, 'drv_int.cpp', 'cmp', INT_GROUPS)
         runner.lane_facts(ctx, 'drv_fp.cpp', 'fcmp', [32, 64])
-    _with_mc(ctx, lambda: mc_intlane(ctx, ['C02']), conf)
+    _with_mc(ctx, lambda: (mc_intlane(ctx, ['C02']), mc_avel(ctx)), conf)
 
 
 def c04(ctx):
@@ -91,7 +100,7 @@ def c07(ctx):
     def conf():
         runner.lane_facts(ctx, 'drv_int.cpp', 'select', INT_GROUPS)
         runner.lane_facts(ctx, 'drv_fp.cpp', 'fselect', [32, 64])
-    _with_mc(ctx, lambda: mc_intlane(ctx, ['C07']), conf)
+    _with_mc(ctx, lambda: (mc_intlane(ctx, ['C07']), mc_avel(ctx)), conf)
 
 
 ALL_GROUPS = [8, 16, 32, 64]
@@ -202,7 +211,7 @@ MEM_ASSUME = [
 
 def c08(ctx):
     ctx.assumptions += LANE_ASSUME[2:] + MEM_ASSUME
-    _with_mc(ctx, lambda: mc_mem(ctx),
+    _with_mc(ctx, lambda: (mc_mem(ctx), mc_avel(ctx)),
              lambda: runner.lane_facts(ctx, 'drv_mem.cpp', 'mem', ALL_GROUPS, env_extra={'MEMMODE': 'values'}))
 
 
@@ -316,7 +325,8 @@ def mc_fpself(ctx):
 
 def _fp(ctx, family):
     ctx.assumptions += FP_ASSUME
-    _with_mc(ctx, lambda: mc_fpself(ctx), lambda: runner.lane_facts(ctx, 'drv_fp.cpp', family, FP_GROUPS))
+    _with_mc(ctx, lambda: (mc_fpself(ctx), mc_avel(ctx) if family == 'fround' else None),
+             lambda: runner.lane_facts(ctx, 'drv_fp.cpp', family, FP_GROUPS))
 
 
 def c10(ctx):
